@@ -14,7 +14,21 @@ from .C01 import to_py
 PROP = "C03"
 
 
+def rule_text(r):
+    return r["raw"] if "raw" in r else rfc5545.rule_text(r)
+
+
 def rule_for(rng, is_date):
+    if rng.random() < 0.08:
+        # the SHIFT extension moves dates across period borders (a Saturday onto the Monday that is next month's first):
+        # the rule's own batch must come out sorted and without the doubled day; short, so that no refill falls in
+        # between (what happens across refills is a listed finding of C16)
+        wd = ",".join(rng.sample(["MO", "TU", "FR", "SA", "SU"], rng.randint(2, 3)))
+        base = rng.choice(["FREQ=MONTHLY;BYDAY=" + wd, "FREQ=MONTHLY;BYMONTHDAY=1,-1", "FREQ=MONTHLY;BYMONTHDAY=1,2,28,-1"])
+        if not is_date and rng.random() < 0.6:
+            base += ";BYHOUR=%s" % ",".join(map(str, sorted(rng.sample(range(24), 2))))
+        n = rng.choice([10, 20, 40])
+        return {"raw": "%s;SHIFT=%s;COUNT=%d" % (base, rng.choice(["+0B", "-0B", "1B", "-1B", "2", "-3"]), n), "count": n, "freq": "MONTHLY"}
     f = rng.choice(["DAILY", "WEEKLY", "MONTHLY", "YEARLY", "HOURLY" if not is_date else "DAILY"])
     r = {"freq": f, "interval": rng.choice([1, 1, 2, 3, 5])}
     if f == "WEEKLY" and rng.random() < 0.5:
@@ -40,7 +54,7 @@ def vevent(uid, dtstart, rules, until=None, rdates=None, tzid=None):
     if tzid and not is_date:
         l[-1] = "DTSTART;TZID=%s:%s" % (tzid, dtstart.strftime("%Y%m%dT%H%M%S"))
     for r in rules:
-        l.append("RRULE:" + rfc5545.rule_text(r))
+        l.append("RRULE:" + rule_text(r))
     for line in rdates or []:
         l.append(line)
     l.append("END:VEVENT")
